@@ -31,7 +31,10 @@ RULE = (
     "sqrt a + sqrt b, (a + cbrt b)/c, a transcendental constant or a random real; n in 1..6 (8 rarely); result is a list "
     "of ints of length 2..n+1, not all zero, max|c| < maxcoeff, |P(x)| <= the pslq bound for (1, x, .., x^deg) plus "
     "sum|c_k||x|^k 2^(2-p) for the rounded powers; completeness under the same margin (vector length n+1, 2^-10 <= |x|^n "
-    "<= 2^20): P must vanish at the high precision root.  identify: x = rational, q*constant, sqrt q, exp q, log q, "
+    "<= 2^20; for roots of generated polynomials additionally the polynomial is certified irreducible (irreducible modulo a "
+    "prime) or maxcoeff exceeds Mignotte's bound 2^d ||Q||_2 for the height of its factors -- PSLQ locks onto the minimal "
+    "polynomial and cannot see past it when that is rejected by maxcoeff; likewise for pslq the non-planted entries are "
+    "pairwise distinct (one-dimensional relation lattice) or maxcoeff > 3 ||c||_2): P must vanish at the high precision root.  identify: x = rational, q*constant, sqrt q, exp q, log q, "
     "(a+b sqrt c)/d, rational linear combinations, products of rational powers, and exp/sqrt/log/inverse/square of "
     "such, 1/32 <= |x| <= 8, constants as strings (also compound expressions like 'pi/4') or dicts with values in "
     "[1/2, 4], tol omitted (eps^0.7) or 2^-k (30 <= k <= p-8), maxcoeff 30..10^4, full True/False; every returned string "
@@ -51,6 +54,9 @@ CONST = {"pi": "pi", "e": "e", "ln2": "log(2)", "ln3": "log(3)", "ln5": "log(5)"
          "catalan": "catalan", "apery": "zeta(3)", "cbrt2": "cbrt(2)", "pi4": "pi/4", "acot2": "acot(2)",
          "acot3": "acot(3)", "acot5": "acot(5)", "acot7": "acot(7)", "acot239": "acot(239)"}
 INDEP = ["pi", "e", "ln2", "ln3", "sqrt2", "sqrt3", "sqrt5", "euler", "catalan", "apery", "cbrt2", "ln5"]
+# independent of every family used in NATURAL (logs of integers, pi and acot values, sqrt 2): adding them keeps the
+# lattice of relations one-dimensional
+SAFE_EXTRA = ["e", "euler", "catalan", "apery", "cbrt2", "sqrt3", "sqrt5"]
 NATURAL = [
     (["ln2", "ln3", "ln6"], [1, 1, -1]),
     (["ln2", "ln5", "ln10"], [1, 1, -1]),
@@ -151,9 +157,8 @@ def _gen_pslq(d, tier):
             names, rel = d.choice(NATURAL)
             names, rel = list(names), list(rel)
             while len(names) < n and d.bool():
-                e = d.choice(INDEP)
-                if e not in names and not (e in ("ln2", "ln3", "ln5") and names[0].startswith("ln")) \
-                        and not (e == "sqrt2" and "sqrt8" in names):
+                e = d.choice(SAFE_EXTRA)
+                if e not in names:
                     names.append(e)
                     rel.append(0)
             perm = list(range(len(names)))
@@ -191,8 +196,10 @@ def _gen_pslq(d, tier):
         names, rel = d.choice(NATURAL)
         names, rel = list(names), list(rel)
         while len(names) < n and d.int(0, 2):
-            names.append(d.choice(INDEP))
-            rel.append(0)
+            e = d.choice(SAFE_EXTRA)
+            if e not in names:
+                names.append(e)
+                rel.append(0)
         perm = list(range(len(names)))
         for i in range(len(perm) - 1, 0, -1):
             j = d.int(0, i)
@@ -594,6 +601,82 @@ def _known_poly(xs):
     return None
 
 
+_PRIMES = [3, 5, 7, 11, 13, 17, 19, 23, 29, 31, 37, 41, 43, 47, 53, 59, 61, 67, 71, 73, 79, 83, 89, 97, 101, 103]
+
+
+def _pmod(a, m, p):
+    """remainder of a modulo the monic polynomial m over F_p (lists low -> high)"""
+    a = [v % p for v in a]
+    dm = len(m) - 1
+    while len(a) > dm:
+        c = a.pop()
+        if c:
+            off = len(a) - dm
+            for i in range(dm):
+                a[off + i] = (a[off + i] - c * m[i]) % p
+    while a and a[-1] == 0:
+        a.pop()
+    return a
+
+
+def _pmul(a, b, m, p):
+    if not a or not b:
+        return []
+    out = [0] * (len(a) + len(b) - 1)
+    for i, x in enumerate(a):
+        if x:
+            for k, y in enumerate(b):
+                out[i + k] = (out[i + k] + x * y) % p
+    return _pmod(out, m, p)
+
+
+def _pgcd_trivial(a, b, p):
+    """True iff gcd(a, b) = 1 over F_p"""
+    a = [v % p for v in a]
+    b = [v % p for v in b]
+    while a and a[-1] == 0:
+        a.pop()
+    while b and b[-1] == 0:
+        b.pop()
+    while b:
+        inv = pow(b[-1], p - 2, p)
+        bm = [(v * inv) % p for v in b]
+        a, b = b, _pmod(a, bm, p)
+    return len(a) == 1
+
+
+def _certified_irreducible(co):
+    """sufficient test: the integer polynomial (low -> high) is irreducible modulo some prime not dividing the leading
+    coefficient (no factor of degree <= deg/2: gcd(x^(p^k) - x, Q) = 1 for k <= deg/2), hence irreducible over Q"""
+    dg = len(co) - 1
+    if dg <= 1:
+        return True
+    for p in _PRIMES:
+        if co[-1] % p == 0:
+            continue
+        inv = pow(co[-1] % p, p - 2, p)
+        m = [(v * inv) % p for v in co]
+        hpow = [0, 1]
+        ok = True
+        for k in range(1, dg // 2 + 1):
+            # hpow <- hpow^p mod m
+            base, e, acc = hpow, p, [1]
+            while e:
+                if e & 1:
+                    acc = _pmul(acc, base, m, p)
+                base = _pmul(base, base, m, p)
+                e >>= 1
+            hpow = acc
+            diff = list(hpow) + [0] * max(0, 2 - len(hpow))
+            diff[1] = (diff[1] - 1) % p
+            if not _pgcd_trivial(m, diff, p):
+                ok = False
+                break
+        if ok:
+            return True
+    return False
+
+
 def _root_hi(co, H):
     """a positive root of sum co[i] x^i (co[0] < 0 < co[-1]) as a Fraction with absolute error <= 2^-H (exact bisection)"""
     dg = len(co) - 1
@@ -763,7 +846,11 @@ def _check_pslq(c, res):
         nrm = _sqrt_up(sum(v * v for v in xv))
         minx = min(abs(v) for v in xv)
         tb = -_log2(tolF)
+        others = [abs(X[i]) for i in range(n) if i != j]
+        rank1 = len(set(others)) == len(others)
+        nrm2 = math.sqrt(sum(v * v for v in _prim(rel)))
         complete = (h <= 100 and h < maxcoeff and maxsteps >= 1000
+                    and (rank1 or maxcoeff > 3 * nrm2)
                     and tb >= 2 * n * math.log2(2 * maxcoeff) + 30
                     and p >= tb + math.log2(n * h) + 10
                     and p >= 4 * n * math.log2(2 * h) + 30
@@ -827,7 +914,10 @@ def _check_findpoly(c, res):
         h = _height(kp)
         tb = -_log2(tolF)
         ax = abs(xF)
+        kpp = _prim(kp[:dg + 1])
+        mign = (1 << dg) * math.sqrt(sum(v * v for v in kpp))
         complete = (dg <= n <= 6 and h <= 1000 and h < maxcoeff and maxsteps >= 1000
+                    and (xs[0] != "root" or maxcoeff > mign or _certified_irreducible(kpp))
                     and tb >= 2 * (n + 1) * math.log2(2 * maxcoeff) + 30
                     and p >= tb + math.log2((n + 1) * h) + 10
                     and p >= 4 * (n + 1) * math.log2(2 * h) + 30
